@@ -7,10 +7,12 @@ magnitudes, recorded synchronously or observed by a callback, for delta and cumu
 
 model      : MetricValue.tla -- the mechanism (per reader pipeline: valueMap entry, delta clear, precomputedSum.reported)
              next to the statement (MetricValueContract: sum of the measurements recorded, what each reader has reported);
-             TLC explores every history of Add(stream, c*4^k), c in {-1,0,1}, and Collect(reader) for small constants, checks
+             TLC explores every history of Add(stream, c*4^k), c in {-1,0,1}, Back(stream) (= Add(-total): the total returns
+             to exactly zero) and Collect(reader) for small constants, checks
              that the mechanism refines the statement (`Conserved`) and the statement's corollary `MonoOK` (no decrease on
              non-negative inputs), and prints every edge.  Deliberately wrong mechanisms (negative increments of a monotonic
-             sum dropped, a negative delta of a monotonic sum clamped to 0, a decreasing observable counter treated as a reset)
+             sum dropped, a negative delta of a monotonic sum clamped to 0, a decreasing observable counter treated as a reset,
+             an observed total of exactly 0 treated as "nothing observed")
              must be found by TLC.
 spec->code : every Collect edge (BFS path to its source state + the collection) is replayed on the real SDK under every
              concretisation (int64 x {1, 2^33}, float64 x {1, 2^-20, 2^600}, manual Collect / periodic ForceFlush) and the
@@ -70,11 +72,11 @@ FAMILY_THOROUGH = [
         [("r1", "cumulative"), ("r2", "delta")], 3, 7),
 ]
 # wrong mechanisms TLC must find (guards against a vacuous `Conserved`): variant -> configuration
-BROKEN = {"dropneg": "v-counter", "clampdelta": "v-counter", "resetobs": "v-ocounter"}
+BROKEN = {"dropneg": "v-counter", "clampdelta": "v-counter", "resetobs": "v-ocounter", "zeroobs": "v-oupdown"}
 
 
 def vclass(v):
-    c = [k for k in ("neg", "zero", "pos") if v.get(k)]
+    c = [k for k in ("neg", "zero", "pos", "back") if v.get(k)]
     return "+".join(c) if c else "none"
 
 
@@ -174,7 +176,8 @@ def stage(ctx, binp):
     if not done or not ({"sum-mismatch", "monotonic-decreased"} & set(got)):
         ctx.note_inconclusive("binding self-test: a corrupted reported value was not rejected (got %s)" % got)
     # vacuity: every value class on every instrument kind, every kind of collection point
-    need = ["replay_adds_neg", "replay_adds_zero", "replay_adds_pos", "replay_worlds"]
+    need = ["replay_adds_neg", "replay_adds_zero", "replay_adds_pos", "replay_adds_back_to_zero", "replay_worlds"]
+    need += ["random_adds_back_to_zero_%s" % i for i in ("counter", "updown", "ocounter", "oupdown")]
     need += ["random_adds_%s_%s" % (i, c) for i in ("counter", "updown", "ocounter", "oupdown") for c in ("neg", "zero", "pos")]
     need += ["random_collections_%s_%s" % (t, via) for t in ("delta", "cumulative") for via in ("Collect", "FF", "SD")]
     missing = [k for k in need if counters.get(k, 0) == 0]
